@@ -300,6 +300,8 @@ class Analysis(object):
             ci = self.prog.cls(q)
             root = "WC" if q.endswith("WorkflowConductor") else "WS"
             for name, f in ci.methods.items():
+                if self.prog.is_dead_helper(f):
+                    continue  # expanded at every call site by the inlining pass
                 out.append((f, root))
         return out
 
@@ -631,13 +633,28 @@ class Analysis(object):
         ok = False
         body = [b for b in f.node.body if not (isinstance(b, ast.Expr) and isinstance(
             b.value, ast.Constant))]
-        if f.is_property and len(body) == 2 and isinstance(body[0], ast.If) and isinstance(
-                body[1], ast.Return) and not body[0].orelse:
+        if f.is_property and body and isinstance(body[0], ast.If) and not body[0].orelse:
             t = body[0].test
-            if isinstance(t, ast.UnaryOp) and isinstance(t.op, ast.Not) and isinstance(
-                    t.operand, ast.Attribute) and body[1].value is not None and unparse(
-                    t.operand) == unparse(body[1].value):
-                ok = True
+            absent = None
+            if isinstance(t, ast.UnaryOp) and isinstance(t.op, ast.Not):
+                attr, absent = t.operand, True
+            elif isinstance(t, ast.Compare) and len(t.ops) == 1 and isinstance(
+                    t.comparators[0], ast.Constant) and t.comparators[0].value is None:
+                attr = t.left
+                absent = True if isinstance(t.ops[0], ast.Is) else (
+                    False if isinstance(t.ops[0], ast.IsNot) else None)
+            else:
+                attr, absent = t, False
+            rets = [r for r in ast.walk(f.node) if isinstance(r, ast.Return)]
+            if isinstance(attr, ast.Attribute) and absent is not None and rets and all(
+                    r.value is not None and unparse(r.value) == unparse(attr) for r in rets):
+                if absent:
+                    # if not self._x: <initialise>; return self._x
+                    ok = len(body) == 2 and isinstance(body[1], ast.Return)
+                else:
+                    # if self._x: return self._x; <initialise>; return self._x
+                    ok = len(body[0].body) == 1 and isinstance(body[0].body[0], ast.Return) \
+                        and isinstance(body[-1], ast.Return)
         self._lazy[f.qualname] = ok
         return ok
 
